@@ -155,10 +155,78 @@ def r1(ctx):
         # ... and it must move up for EVERY larger ID: _packet_id_base is "the highest wire ID seen", which is what
         # makes `_packet_id_base + 1` a fresh ID; any further condition on the update leaves used IDs above the base
         if st.kind == "assign" and st.value is not None:
-            extra = [(e, pol) for e, pol in facts(st.node, f.node) if _vs_base(e, pol, st.value) not in ("gt", "ge", "ne")]
+            nonneg = _maxlen_syms(init)
+            extra = [(e, pol) for e, pol in facts(st.node, f.node) if _vs_base(e, pol, st.value) not in ("gt", "ge", "ne")
+                     and not _implied_by_larger(repo, f, e, pol, st.value, nonneg)]
             ctx.ob("C04.R1", f"{f.qual}: {st.path} follows every larger ID (no further condition)", not extra, ctx.w(f, st.node),
                    f"update also requires {[norm(e) + ('' if p else ' (negated)') for e, p in extra]}: a wire ID that was "
                    f"forwarded can stay above the base, and the next injected ID (base + 1) collides with / falls below it")
+
+
+def _maxlen_syms(init):
+    """Access paths that hold the deque's maxlen (never negative): injections.maxlen and attributes assigned from the
+    same constructor parameter."""
+    syms = {f"{DEQ}.maxlen"}
+    for st in stores(init.node):
+        if st.path == DEQ and st.kind == "assign" and isinstance(st.value, ast.Call):
+            ml = kw(st.value, "maxlen")
+            if isinstance(ml, ast.Name):
+                for s2 in stores(init.node):
+                    if s2.kind == "assign" and s2.path.startswith("self.") and isinstance(s2.value, ast.Name) and s2.value.id == ml.id:
+                        syms.add(s2.path)
+    return syms
+
+
+def _implied_by_larger(repo, f, e, pol, value, nonneg):
+    """Does `value > self._packet_id_base` (over the integers, with the symbols in `nonneg` >= 0) imply that the
+    comparison e has truth value pol?  Locals are resolved to their defining expressions; both sides must be linear.
+    Exact for linear terms: substitute value = base + 1 + t (t >= 0) and require the remaining form to be bounded
+    below by its value at t = 0, nonneg = 0."""
+    if not (isinstance(e, ast.Compare) and len(e.ops) == 1):
+        return False
+    l, r = _lin(repo, f, e.left), _lin(repo, f, e.comparators[0])
+    v = ap(value)
+    if l is None or r is None or v is None:
+        return False
+    diff = dict(l)
+    for k, c in r.items():
+        diff[k] = diff.get(k, 0) - c           # diff = left - right
+    op = type(e.ops[0])
+    if not pol:
+        op = {ast.Gt: ast.LtE, ast.GtE: ast.Lt, ast.Lt: ast.GtE, ast.LtE: ast.Gt, ast.Eq: ast.NotEq, ast.NotEq: ast.Eq}.get(op)
+    if op is None:
+        return False
+
+    def ge0(form):
+        """form >= 0 for all integers with value > base and nonneg symbols >= 0"""
+        cv, cb = form.get(v, 0), form.get(BASE, 0)
+        if cv + cb != 0 or cv < 0:
+            return False
+        for k, c in form.items():
+            if k in (v, BASE, 1) or c == 0:
+                continue
+            if k in nonneg:
+                if c < 0:
+                    return False
+            else:
+                return False                    # a free symbol with a non-zero coefficient is unbounded below
+        return cv + form.get(1, 0) >= 0
+
+    def shifted(form, sign, delta):
+        out = {k: sign * c for k, c in form.items()}
+        out[1] = out.get(1, 0) + delta
+        return out
+    if op is ast.GtE:
+        return ge0(diff)
+    if op is ast.Gt:
+        return ge0(shifted(diff, 1, -1))
+    if op is ast.LtE:
+        return ge0(shifted(diff, -1, 0))
+    if op is ast.Lt:
+        return ge0(shifted(diff, -1, -1))
+    if op is ast.NotEq:
+        return ge0(shifted(diff, 1, -1)) or ge0(shifted(diff, -1, -1))
+    return False
 
 
 def _vs_base(e, pol, value):
